@@ -222,6 +222,7 @@ func (d *DataChannel) OnOpen(f func()) {
 	d.openHandlerOnce = once
 	d.onOpenHandler = f
 	d.mu.Unlock()
+	verifhook.Point("dcreg.open")
 
 	if d.ReadyState() == DataChannelStateOpen {
 		// If the data channel is already open, call the handler immediately.
@@ -241,6 +242,7 @@ func (d *DataChannel) onOpen() {
 		return
 	}
 	d.mu.RUnlock()
+	verifhook.Point("dcfire.open")
 
 	if handler != nil {
 		go once.Do(func() {
@@ -292,6 +294,7 @@ func (d *DataChannel) OnClose(f func()) {
 	d.closeHandlerOnce = once
 	d.onCloseHandler = f
 	d.mu.Unlock()
+	verifhook.Point("dcreg.close")
 
 	if d.ReadyState() == DataChannelStateClosed {
 		// If the data channel is already closed, call the handler immediately.
@@ -303,6 +306,7 @@ func (d *DataChannel) onClose() {
 	d.mu.RLock()
 	handler, once := d.onCloseHandler, d.closeHandlerOnce
 	d.mu.RUnlock()
+	verifhook.Point("dcfire.close")
 
 	if handler != nil {
 		go once.Do(handler)
